@@ -127,6 +127,12 @@ def _run(ck: core.Check, pool):
         ck.cov["propagate_values_overrides"] = [list(e) for e in vp_overrides.generate()]
     except Exception as e:  # noqa: BLE001
         ck.broken("translator", "vp_overrides", f"{type(e).__name__}: {str(e)[:200]}")
+    try:
+        from translator import vp_sampling
+
+        ck.cov["propagation_guards"] = vp_sampling.generate()
+    except Exception as e:  # noqa: BLE001
+        ck.broken("translator", "vp_sampling", f"{type(e).__name__}: {str(e)[:200]}")
     # ---- prove
     ck.lean(["SpoxModel.Props.C07"], audit="SpoxModel.Audit.C07")
     if ck.thorough:
